@@ -1,5 +1,154 @@
-import ProductMD.Model.ManifestIO
-import ProductMD.Proofs.PyCanon
+import ProductMD.Proofs.ManifestIO
+/-!
+# C03 — RPM, module and extra-file manifests survive a write/read cycle unchanged
+
+Model: `Model/Builders.lean` (the add operations, `runOps`), `Model/ManifestIO.lean` (`serialize`, `deserialize`,
+`dumps`, `roundtrip`; header and compose validated by the rule lists generated from the source; payload stored and
+emitted verbatim; text = `JsonText.dumps`, byte-exact `json.dump(indent=4, sort_keys=True)`).
+
+The JSON *parser* is not modelled: `reparse doc = canon doc` says that `json.load` gives back the document that was
+written, with every dict in the (sorted) order of the text.  The harness compares the model's re-read manifest with
+the real `loads()` on every case.
+-/
 namespace PM.Mf
-theorem C03_placeholder : True := trivial
+open PM
+
+/-- arguments that are JSON values themselves (strings always are; `rpms` may be a list or a TUPLE of JSON values;
+`size` and `checksums` any JSON value) -/
+def AddOp.argsRep : AddOp → Bool
+  | .rpms _ => true
+  | .modules a => a.rpms.jsonRep
+  | .extra a => jsonRep a.size && jsonRep a.checksums
+
+theorem step_jsonRep (s : PyVal) (op : AddOp) (ha : op.argsRep = true) (h : jsonRep s = true) :
+    jsonRep (step s op).1 = true := by
+  cases op with
+  | rpms a => exact rpms_add_jsonRep s a h
+  | modules a => exact modules_add_jsonRep s a ha h
+  | extra a =>
+    simp only [AddOp.argsRep, Bool.and_eq_true] at ha
+    exact extra_add_jsonRep s a ha h
+
+/-- **Every mapping reachable by add calls is JSON-representable**: after any history of calls (accepted or refused,
+any arguments that are JSON values, tuples allowed for `rpms`) the mapping consists only of None/bool/int/float/
+str/list/dict-with-distinct-string-keys — no tuple, set or foreign object can get in.  (A change that stores the
+caller's tuple makes `Modules.add`'s model store a `PyVal.other` and breaks this proof.) -/
+theorem C03_json_closed (ops : List AddOp) (hargs : ∀ op ∈ ops, op.argsRep = true) :
+    jsonRep (runOps empty ops) = true := by
+  suffices ∀ s, jsonRep s = true → jsonRep (runOps s ops) = true from this empty rfl
+  induction ops with
+  | nil => intro s hs; exact hs
+  | cons op rest ih =>
+    intro s hs
+    exact ih (fun o ho => hargs o (List.mem_cons_of_mem _ ho)) _
+      (step_jsonRep s op (hargs op (List.mem_cons_self)) hs)
+
+/-- histories of `Rpms.add` calls need no hypothesis at all: every argument is a string or None -/
+theorem C03_json_closed_rpms (h : List RpmsArgs) : jsonRep (runRpms empty h) = true := by
+  suffices ∀ s, jsonRep s = true → jsonRep (runRpms s h) = true from this empty rfl
+  induction h with
+  | nil => intro s hs; exact hs
+  | cons a rest ih => intro s hs; exact ih _ (rpms_add_jsonRep s a hs)
+
+/-- the write/read/write cycle on ANY JSON-representable mapping -/
+theorem C03_roundtrip_payload (k : Kind) (v0 : PyVal) (c : ComposeT) (p : PyVal) (hp : jsonRep p = true)
+    (hv : composeValidate c.toObj = .ok ()) (hn : composeValidate c.norm.toObj = .ok ()) :
+    ∃ rt, roundtrip k { version := v0, compose := c.toObj, payload := p } = .ok rt
+      ∧ rt.reloaded.payload = PyVal.canon p
+      ∧ PyVal.pyEq rt.reloaded.payload p = true
+      ∧ rt.reloaded.compose = c.norm.toObj
+      ∧ rt.reloaded.version = .str currentVersion
+      ∧ rt.text2 = rt.text1 := by
+  unfold roundtrip
+  rw [dumpDoc_eq k v0 c p hv]
+  simp only
+  rw [deserialize_reparse k c p hp hn]
+  simp only
+  rw [dumpDoc_eq k _ c.norm (PyVal.canon p) hn]
+  exact ⟨_, rfl, rfl, pyEq_canon p hp, rfl, rfl, dumps_docOf_canon k c p hp⟩
+
+/-- **Round trip, any history** — for every kind of manifest, every history of add calls, every compose section in
+normal form (`final` only with a label: `c.norm = c`) that validates, and whatever the header version was:
+`dumps` succeeds; `loads` of that text succeeds; the re-read mapping is the built mapping with sorted keys, i.e.
+Python-equal to it; the compose section is the same; a second `dumps` gives the same bytes. -/
+theorem C03_roundtrip (k : Kind) (ops : List AddOp) (hargs : ∀ op ∈ ops, op.argsRep = true)
+    (v0 : PyVal) (c : ComposeT) (hc : c.norm = c) (hv : composeValidate c.toObj = .ok ()) :
+    ∃ rt, roundtrip k { version := v0, compose := c.toObj, payload := runOps empty ops } = .ok rt
+      ∧ rt.reloaded.payload = PyVal.canon (runOps empty ops)
+      ∧ PyVal.pyEq rt.reloaded.payload (runOps empty ops) = true
+      ∧ rt.reloaded.compose = c.toObj
+      ∧ rt.reloaded.version = .str currentVersion
+      ∧ rt.text2 = rt.text1 := by
+  have := C03_roundtrip_payload k v0 c (runOps empty ops) (C03_json_closed ops hargs) hv (by rw [hc]; exact hv)
+  rw [hc] at this
+  exact this
+
+/- Full statement for a compose section NOT in normal form (`final = True` without a label): the same, with the
+   re-read section equal to `c.norm` (label None, final False — the documented normalisation).  Proved below under
+   the additional explicit hypothesis that the normalised section validates too; what is missing is the derivation
+   of that from `hv` (the generated rule list reads `final` only under the guard `if self.label`, so it is true of
+   the current rules, but the rule interpreter has no "fields read" analysis yet). -/
+theorem C03_roundtrip_final_dropped_partial (k : Kind) (ops : List AddOp) (hargs : ∀ op ∈ ops, op.argsRep = true)
+    (v0 : PyVal) (c : ComposeT) (hv : composeValidate c.toObj = .ok ())
+    (hn : composeValidate c.norm.toObj = .ok ()) :
+    ∃ rt, roundtrip k { version := v0, compose := c.toObj, payload := runOps empty ops } = .ok rt
+      ∧ PyVal.pyEq rt.reloaded.payload (runOps empty ops) = true
+      ∧ rt.reloaded.compose = c.norm.toObj
+      ∧ rt.text2 = rt.text1 := by
+  obtain ⟨rt, h1, _, h3, h4, _, h6⟩ :=
+    C03_roundtrip_payload k v0 c (runOps empty ops) (C03_json_closed ops hargs) hv hn
+  exact ⟨rt, h1, h3, h4, h6⟩
+
+/-- a section with a label is in normal form -/
+theorem C03_norm_of_label (c : ComposeT) (h : c.labelSet = true) : c.norm = c := by simp [ComposeT.norm, h]
+
+/-- so is one without label whose `final` is False -/
+theorem C03_norm_of_not_final (c : ComposeT) (h1 : c.label = none) (h2 : c.final = false) : c.norm = c := by
+  obtain ⟨id, ty, date, respin, label, final⟩ := c
+  simp only at h1 h2
+  subst h1 h2
+  rfl
+
+/-- the gates the round trip depends on, read from the generated `VERSION`: documents are written with a version
+the reader treats as current (type checked, no legacy conversion) -/
+theorem C03_version_gates :
+    versionTuple (.str currentVersion) = .ok (.nums [Gen.VERSION.1, Gen.VERSION.2])
+    ∧ lexLe headerTypeGate [Gen.VERSION.1, Gen.VERSION.2] = true
+    ∧ lexLe [Gen.VERSION.1, Gen.VERSION.2] rpmsLegacyGate = false
+    ∧ lexLt [Gen.VERSION.1, Gen.VERSION.2] composeLegacyGate = false :=
+  ⟨versionTuple_current, gate_header, gate_rpms, gate_compose⟩
+
+/-! ### non-vacuity: concrete compose sections satisfy the hypotheses; a concrete history goes round -/
+
+def exampleCompose : ComposeT :=
+  { id := lit "Fedora-23-20151030.n.0", type := lit "nightly", date := lit "20151030", respin := 0,
+    label := some (lit "RC-1.2"), final := true }
+
+def exampleComposeNoLabel : ComposeT :=
+  { id := lit "Fedora-23-20151030.0", type := lit "production", date := lit "20151030", respin := 0,
+    label := none, final := true }
+
+example : exampleCompose.norm = exampleCompose ∧ composeValidate exampleCompose.toObj = .ok () := by
+  refine ⟨C03_norm_of_label _ (by decide), by decide +kernel⟩
+
+example : composeValidate exampleComposeNoLabel.toObj = .ok ()
+    ∧ composeValidate exampleComposeNoLabel.norm.toObj = .ok () := by
+  constructor <;> decide +kernel
+
+def exampleOps : List AddOp :=
+  [.rpms { variant := lit "Server", arch := lit "x86_64", nevra := lit "foo-bar-1:2.0-3.el7.x86_64.rpm",
+           path := lit "Packages/f/foo-bar.rpm", sigkey := some (lit "FD431D51"), category := lit "binary",
+           srpm := some (lit "foo-1:2.0-3.el7.src.rpm") },
+   .rpms { variant := lit "Client", arch := lit "x86_64", nevra := lit "foo-1:2.0-3.el7.src.rpm",
+           path := lit "Packages/f/foo.src.rpm", sigkey := none, category := lit "source" }]
+
+theorem C03_example :
+    (∀ op ∈ exampleOps, op.argsRep = true)
+    ∧ ((roundtrip .rpms { version := .str (lit "0.0"), compose := exampleCompose.toObj,
+                          payload := runOps empty exampleOps }).toOption.map
+        (fun rt => rt.text1 == rt.text2 && rt.text1.length > 400)) = some true := by
+  constructor
+  · decide
+  · decide +kernel
+
 end PM.Mf
